@@ -12,6 +12,16 @@ BASE_NOTE = (
 
 # property -> (category, text, technique, design_ref, extra note)
 CLAIMS = {
+    "C23": (
+        "other",
+        "Contracts on the real CachingLoaderMixin: cache_key injectivity on (namespace, name) as a two-run obligation over all strings (z3 strings); _check_cache against the cache invariant with the LRU map replaced by its (C24-verified) contract: "
+        "a miss loads exactly once and stores under the key, a hit returns the cached template unless it is stale under auto-reload (then reloads once), the freshness check happens iff auto_reload, and the returned template carries the globals of THIS request. "
+        "That load/load_async check the cache under cache_key(...) and load the same request, and that built-in uptodate callables work from both sync and async requests, are structural wiring obligations (the async twins are C01's). "
+        "A bounded check replays all request sequences of length 2 (thorough 3) over 16 request kinds against a non-caching loader.",
+        "contract-based deductive verification (two-run injectivity over strings; cache-invariant contract with callee contracts) + structural wiring + bounded contract check",
+        "DESIGN.md section 4 C23",
+        "One known finding (cache_key not injective around '/') keeps the level at 'other'.",
+    ),
     "C26": (
         "other",
         "The plural count kernel _count is verified for all values (integers incl. 0 and 1 are their own count; None/booleans/non-numeric text mean no count). "
